@@ -34,6 +34,9 @@ for d in sorted(glob.glob(os.path.join(V, "seeded", "*"))):
             kind = "caught (no-failing-input-found)" if "no-failing-input-found" in viol[0] else "caught with replay"
         m = re.search(r"holds_false=(\d+).*disagree|disagree=(\d+) holds_false=(\d+)", summ)
         rows.append((sid, prop, kind, summ[-120:]))
+        json.dump({"id": sid, "property": prop, "tier": tier, "outcome": kind, "summary": summ,
+                   "violation_line": viol[0] if viol else None},
+                  open(os.path.join(d, "result.json"), "w"), indent=1)
     finally:
         subprocess.run(["git", "-C", "/repo", "worktree", "remove", "--force", wt], capture_output=True)
 # leave /verif's tracked generated files and evidence as they were
